@@ -519,6 +519,10 @@ fn recover(
         }
     }
 
+    // The WAL is the only other copy of the pages we just wrote: make them durable before it is
+    // discarded.
+    ht_fd.sync_all()?;
+
     // Finally, we collapse the WAL file and fsync.
     writeout::truncate_wal(wal_fd, true)?;
 
